@@ -168,3 +168,72 @@ PROPS["C04"] = {
     "outside": "inputs longer than the bound with more than one arbitrary byte; file import enabled (reaches the OS)",
     "stubs": COMMON_STUBS,
 }
+
+PROPS["C11"] = {
+    "level": "model_checking",
+    "harness": ["C11_"],
+    "tiers": {
+        "quick": {"timeout": "20s", "maxsteps": 12000000, "bounds": "17 scope programs (compound assignment, ++/--, selector assignment through global/local/free variables, closures, shadowing, loops, variadics, recursion, failing operations) x {function body, module function, consistent renaming, each marked sub-expression wrapped in an immediately-invoked function literal}; inputs a, b int64 (or -1..3 where they bound loops/recursion), c bool", "cross": 2},
+        "thorough": {"timeout": "60s", "maxsteps": 12000000, "bounds": "as quick", "cross": 3},
+    },
+    "reach": {"C11_Relocate": ["relocate"]},
+    "assumptions": ["transformations are applied to marked program templates by text substitution in the harness; programs in which a closure outlives the loop iteration that declared a captured variable (the documented scope-dependent case) are not in the list",
+                    "failing programs are compared by error class, not by position text (positions legitimately move)"],
+    "outside": "programs and transformations beyond the list",
+    "stubs": COMMON_STUBS,
+}
+
+PROPS["C12"] = {
+    "level": "translation_validation",
+    "harness": ["C12_"],
+    "tiers": {
+        "quick": {"timeout": "20s", "maxsteps": 12000000, "bounds": "constant de-duplication: 6 constant-heavy programs (incl. a source module and nested functions) + 44 catalog + 9 failing programs compiled with the raw Compiler API, run before and after the real RemoveDuplicates on the same symbolic inputs (globals, error text and positions compared); pools of 2..4 constants with symbolic int/float/char/string values", "cross": 1},
+        "thorough": {"timeout": "60s", "maxsteps": 12000000, "bounds": "as quick", "cross": 2},
+    },
+    "reach": {"C12_Dedup": ["dedup"], "C12_SymbolicPool": ["pool"]},
+    "assumptions": ["SERIALIZATION IS NOT CLAIMED: Bytecode.Encode/Decode go through encoding/gob, which is reflection-driven and cannot be executed by the engine; only the de-duplication half of the property is decided (see DESIGN.md)"],
+    "outside": "encoding/gob round trip; user functions inside constants",
+    "stubs": COMMON_STUBS,
+    "level_text": "translation validation of constant de-duplication: each program is run on symbolic inputs before and after the real RemoveDuplicates and the structural post-conditions are checked; the serialization half of the property is outside the technique's reach and is not claimed",
+}
+
+PROPS["C13"] = {
+    "level": "model_checking",
+    "harness": ["C13_"],
+    "tiers": {
+        "quick": {"timeout": "20s", "maxsteps": 12000000, "bounds": "all 64 import graphs on 2 source modules + main (edges are finite choices); 13 isolation/immutability/freshness cases with a symbolic input; 12 import names (plain, path-like, module-map names) x 3 configurations with file import disabled", "cross": 2},
+        "thorough": {"timeout": "60s", "maxsteps": 12000000, "bounds": "all 4096 import graphs on 3 source modules + main; rest as quick", "cross": 3},
+    },
+    "reach": {"C13_Graphs": ["cycle", "acyclic"], "C13_Isolation": ["iso-ok", "iso-compile-error", "iso-run-error"], "C13_NoFileSystem": ["nofs"]},
+    "assumptions": ["the graph family has no wide variable: it is an exhaustive case split of the edge set (stated in DESIGN.md); 'never consults the file system' = no path reaches an os/io/ioutil/filepath entry point, all of which the engine traps",
+                    "'compiled once' is observed as the number of distinct module functions in the constant pool after de-duplication"],
+    "outside": "larger graphs; file import enabled (real files)",
+    "stubs": COMMON_STUBS,
+}
+
+PROPS["C14"] = {
+    "level": "model_checking",
+    "harness": ["C14_"],
+    "tiers": {
+        "quick": {"timeout": "20s", "maxsteps": 40000000, "bounds": "4 multi-line programs (flat, calls nested 3 deep, dead code after returns/continues that shifts instruction offsets, loop + closure) where a symbolic input selects the failing operation; a module program; 6 sentinel/host-error cases; through Run and RunContext", "cross": 2},
+        "thorough": {"timeout": "60s", "maxsteps": 40000000, "bounds": "as quick", "cross": 3},
+    },
+    "reach": {"C14_Positions": ["positions"], "C14_Module": ["module"], "C14_Unwrap": ["unwrap"]},
+    "assumptions": ["locations are compared by file and line (one statement per line in the programs); columns and message wording are not compared",
+                    "Go runtime panics converted by RunContext (e.g. 1/0) carry no location and are not in the list"],
+    "outside": "programs beyond the list; column accuracy",
+    "stubs": COMMON_STUBS,
+}
+
+PROPS["C15"] = {
+    "level": "model_checking",
+    "harness": ["C15_"],
+    "tiers": {
+        "quick": {"timeout": "20s", "maxsteps": 12000000, "bounds": "Go universe: nil, string(0..2 bytes), int, int64, bool, rune, byte, float64, []byte, error, time.Time, []interface{} of 0..2 scalars, map[string]interface{} with a nested slice, []Object, map[string]Object, Object, payloads symbolic; accessors on U(1,2); histories: 2 Add/Remove steps, Compile, then 3 calls from {Set, Run, Get/IsDefined, Clone, GetAll} over 4 scripts and 3 names with symbolic values, against a map model", "cross": 2},
+        "thorough": {"timeout": "60s", "maxsteps": 12000000, "bounds": "as quick with 5 post-compile calls", "cross": 3},
+    },
+    "reach": {"C15_RoundTrip": ["roundtrip"], "C15_Accessors": ["accessors"], "C15_History": ["history"]},
+    "assumptions": ["String() of symbolic floats/times in the accessor check uses boundary values; ints there are in (-1000, 1000)"],
+    "outside": "tengo.Eval's templating; user Object implementations; longer histories",
+    "stubs": COMMON_STUBS,
+}
